@@ -267,6 +267,12 @@ func vc13ManView(version uint64, meta indexmeta.Meta, vals [][2]uint64, haveVals
 // version and metadata (only possible when the cut lies exactly between two tuples).
 func (x *vc13Run) manifestObserve(kind, how string, cut, size int, complete, got string, before, after []byte, prefixOK bool) {
 	known := ""
+	if cut == 0 && kind == "gsfa-manifest-file" {
+		// manifest.NewManifest is the WRITER's constructor: an empty file is a manifest to be started. Readers go
+		// through gsfa.NewGsfaReader (kind gsfa-manifest-open), which must refuse an empty manifest.
+		x.rep.Count("creation-semantics:NewManifest-on-empty-file")
+		return
+	}
 	if got != "err" && got != complete {
 		if cut == 0 {
 			known = "empty-manifest-opens-as-new"
